@@ -150,8 +150,21 @@ def identity_execute(case, stats):
         # same id -> same keys (other arguments differ, RNG state differs)
         random.seed(case["rng"] ^ 0x5A5A)
         cl2 = HttpBeaconClient()
-        lib(cl2.run, config(), dry_run=True, beacon_id=got, user="u", computer="c", process="p", what="second run")
+        cfg2 = config()  # one configuration object, used for the first run and the re-run of cl2
+        lib(cl2.run, cfg2, dry_run=True, beacon_id=got, user="u", computer="c", process="p", what="second run")
         eq(cl2.aes_rand, cl.aes_rand, "identity:keys_not_deterministic", f"aes_rand for id {got} across two runs")
+        # running the SAME client object again with another id must behave like a fresh client of that id
+        other = (got + 2 * (1 + case["rng"] % 1000)) % 2**31
+        fresh = HttpBeaconClient()
+        lib(fresh.run, config(), dry_run=True, beacon_id=other, user="u", computer="c", process="p", what="fresh client")
+        lib(cl2.run, cfg2, dry_run=True, beacon_id=other, user="u", computer="c", process="p", what="re-run of a used client with another id")
+        d2 = hashlib.sha256(fresh.aes_rand).digest()
+        for name, obj in (("fresh", fresh), ("re-run", cl2)):
+            bk = obj.c2http.beacon_keys
+            state_ = (obj.beacon_id, obj.aes_rand, obj.aes_key, obj.hmac_key, obj.c2http.aes_key, obj.c2http.hmac_key, bk.aes_key, bk.hmac_key, bytes(obj.metadata.aes_rand), int(obj.metadata.bid))
+            want_ = (other, fresh.aes_rand, d2[:16], d2[16:], d2[:16], d2[16:], d2[:16], d2[16:], fresh.aes_rand, other)
+            if state_ != want_:
+                raise Violation("identity:rerun_stale_keys", f"{name} client for id {other}: identity/keys {state_!r} differ from the keys of that id {want_!r}")
         # metadata must fit the server's RSA-1024 key and survive transport
         blob = lib(c2.encrypt_metadata, cl.metadata, priv.public_key(), allow=(ValueError,), what="encrypt_metadata(client.metadata)")
         if isinstance(blob, Raised):
